@@ -109,10 +109,15 @@ var MappingMenu = []refmodel.Mapping{
 	{{K: []byte("a=b;c"), V: []byte("d;=e")}},
 	{{K: []byte("caps"), V: []byte("BC")}, {K: []byte("host"), V: []byte("127.0.0.1")}, {K: []byte("port"), V: []byte("4567")}},
 	{{K: []byte("x"), V: []byte{0x00, 0xff}}, {K: []byte("y"), V: []byte("")}},
+	// well-known option keys present but empty (accessors index into these values)
+	{{K: []byte("caps"), V: []byte("")}, {K: []byte("host"), V: []byte("")}, {K: []byte("i"), V: []byte("")}, {K: []byte("port"), V: []byte("")}, {K: []byte("router.version"), V: []byte("")}, {K: []byte("s"), V: []byte("")}, {K: []byte("v"), V: []byte("")}},
+	// router-level options with a realistic and with a degenerate version string
+	{{K: []byte("caps"), V: []byte("fRX")}, {K: []byte("netId"), V: []byte("2")}, {K: []byte("router.version"), V: []byte("0.9.67")}},
+	{{K: []byte("caps"), V: []byte("6")}, {K: []byte("host"), V: []byte("example.i2p")}, {K: []byte("router.version"), V: []byte("..")}},
 }
 
 // MappingNames for readable identities.
-var MappingNames = []string{"empty", "a=b", "a=''", "sorted2", "unsorted2", "''=''", "255/255", "specials", "caps-host-port", "binary+emptylast"}
+var MappingNames = []string{"empty", "a=b", "a=''", "sorted2", "unsorted2", "''=''", "255/255", "specials", "caps-host-port", "binary+emptylast", "wellknown-empty", "router-caps-version", "degenerate-version"}
 
 func Mapping(c *choose.Ctx, name string) refmodel.Mapping {
 	return MappingMenu[c.Pick(name, len(MappingMenu))]
